@@ -5,6 +5,9 @@
 //	swapelse  if c {A} else {B}  →  if !(c) {B} else {A}   (else-blocks only, not else-if chains)
 //	splitand  if a && b {X}  →  if a { if b {X} }   (no init, no else)
 //	splitor   if a || b {X; terminating}  →  if a {X}; if b {X}   (no init, no else, X ends in return/continue/break/panic)
+//	renamelocals  every local variable declared inside a function body gets the suffix "Zq" (parameters, results,
+//	              receivers and package-level names keep theirs)
+//	reversedecls  the top-level function declarations of every file are written in reverse order
 //
 // Files with a "Code generated" header and _test.go files are skipped. The rewritten file is gofmt-ed.
 package main
@@ -129,6 +132,21 @@ func main() {
 			panic(err)
 		}
 		n := 0
+		if mode == "renamelocals" {
+			n = renameLocals(f)
+		}
+		if mode == "reversedecls" {
+			var funcs []int
+			for i, d := range f.Decls {
+				if _, ok := d.(*ast.FuncDecl); ok {
+					funcs = append(funcs, i)
+				}
+			}
+			for i, j := 0, len(funcs)-1; i < j; i, j = i+1, j-1 {
+				f.Decls[funcs[i]], f.Decls[funcs[j]] = f.Decls[funcs[j]], f.Decls[funcs[i]]
+				n++
+			}
+		}
 		ast.Inspect(f, func(x ast.Node) bool {
 			switch v := x.(type) {
 			case *ast.BinaryExpr:
@@ -168,7 +186,33 @@ func main() {
 		}
 		// Comments are positioned by offset; after structural rewrites they can land in odd places, so drop the
 		// free-floating ones inside function bodies (doc comments stay attached to their declarations).
-		if mode != "flipcmp" {
+		if mode == "reversedecls" {
+			// positions no longer match the declaration order: keep only the doc comments (attached to their nodes)
+			var keep []*ast.CommentGroup
+			for _, cg := range f.Comments {
+				isDoc := f.Doc == cg
+				for _, d := range f.Decls {
+					switch x := d.(type) {
+					case *ast.FuncDecl:
+						isDoc = isDoc || x.Doc == cg
+					case *ast.GenDecl:
+						isDoc = isDoc || x.Doc == cg
+					}
+				}
+				if cg.Pos() < f.Package || strings.HasPrefix(cg.List[0].Text, "//go:") {
+					isDoc = true
+				}
+				if isDoc {
+					keep = append(keep, cg)
+				}
+			}
+			f.Comments = keep
+			for _, d := range f.Decls {
+				if fd, ok := d.(*ast.FuncDecl); ok && fd.Body != nil {
+					stripPos(fd)
+				}
+			}
+		} else if mode != "flipcmp" && mode != "renamelocals" {
 			var keep []*ast.CommentGroup
 			for _, cg := range f.Comments {
 				inBody := false
@@ -194,3 +238,62 @@ func main() {
 	}
 	fmt.Printf("xform %s: %d rewrites\n", mode, total)
 }
+
+
+// renameLocals renames the variables declared inside function bodies (resolved by the parser's scopes).
+func renameLocals(f *ast.File) int {
+	objs := map[*ast.Object]bool{}
+	for _, d := range f.Decls {
+		fd, ok := d.(*ast.FuncDecl)
+		if !ok || fd.Body == nil {
+			continue
+		}
+		ast.Inspect(fd.Body, func(x ast.Node) bool {
+			id, ok := x.(*ast.Ident)
+			if !ok || id.Obj == nil || id.Obj.Kind != ast.Var || id.Name == "_" {
+				return true
+			}
+			switch decl := id.Obj.Decl.(type) {
+			case *ast.AssignStmt:
+				if decl.Pos() > fd.Body.Lbrace && decl.End() < fd.Body.Rbrace {
+					objs[id.Obj] = true
+				}
+			case *ast.ValueSpec:
+				if decl.Pos() > fd.Body.Lbrace && decl.End() < fd.Body.Rbrace {
+					objs[id.Obj] = true
+				}
+			case *ast.RangeStmt:
+				objs[id.Obj] = true
+			}
+			return true
+		})
+	}
+	n := 0
+	keys := map[*ast.Ident]bool{}
+	ast.Inspect(f, func(x ast.Node) bool {
+		if kv, ok := x.(*ast.KeyValueExpr); ok {
+			if id, ok := kv.Key.(*ast.Ident); ok {
+				keys[id] = true
+			}
+		}
+		return true
+	})
+	// a composite-literal key that the parser resolved to a local may be a field name or a map key: leave such
+	// variables alone altogether
+	for id := range keys {
+		if id.Obj != nil {
+			delete(objs, id.Obj)
+		}
+	}
+	ast.Inspect(f, func(x ast.Node) bool {
+		if id, ok := x.(*ast.Ident); ok && id.Obj != nil && objs[id.Obj] {
+			id.Name += "Zq"
+			n++
+		}
+		return true
+	})
+	return n
+}
+
+// stripPos is a no-op placeholder: go/format lays the declarations out in slice order regardless of their positions.
+func stripPos(*ast.FuncDecl) {}
